@@ -41,12 +41,17 @@ def reachable_objs(st, vals):
     return out
 
 
-def unchanged_obj(s0, s1, v, v1=None, skip_attrs=()):
+def unchanged_obj(s0, s1, v, v1=None, skip_attrs=(), skip_oids=()):
     """content of materialised object v in s1 (or of v1 in s1) equals content of v in s0 (structural, recursive)"""
     v1 = v1 or v
     r0, r1 = s0.objs[v.oid], s1.objs.get(v1.oid)
-    if r1 is None or r1 is r0:
+    if r1 is None:
         return z3.BoolVal(True)
+    if r1 is r0 and not any(k.startswith("attr:") and isinstance(x, VObj) for k, x in r0.items()):
+        return z3.BoolVal(True)
+    # (an identical record still has to be descended into: a sub-object held in an attribute has its own record, which may have
+    #  changed - e.g. the `_dict` index of a DictList that is an attribute of a materialised model; sub-objects listed in the
+    #  modifies clause (skip_oids) are exempt)
     cs = []
     if v.kind == "list":
         if not (r1["len"].eq(r0["len"]) and r1["elem"].eq(r0["elem"])):
@@ -76,11 +81,13 @@ def unchanged_obj(s0, s1, v, v1=None, skip_attrs=()):
         if key.startswith("attr:") and (v.oid, key[5:]) not in skip_attrs:
             a0, a1 = r0[key], r1.get(key)
             if isinstance(a0, VObj):
+                if a0.oid in skip_oids:
+                    continue
                 if not (isinstance(a1, VObj) and a1.kind == a0.kind):
                     cs.append(z3.BoolVal(False))
                 elif a1.oid != a0.oid or s1.objs.get(a1.oid) is not s0.objs.get(a0.oid):
                     # a replaced-but-equal private container is unobservable: compare structurally
-                    cs.append(unchanged_obj(s0, s1, a0, a1, skip_attrs))
+                    cs.append(unchanged_obj(s0, s1, a0, a1, skip_attrs, skip_oids))
             elif isinstance(a0, (VInt, VBool, VStr, VRef)):
                 if not (type(a1) is type(a0)):
                     cs.append(z3.BoolVal(False))
@@ -117,7 +124,7 @@ def frame_goal(eng, con, E, s0, s1, modified):
     for v in tops:   # privately owned sub-objects are compared structurally through their owner
         if v.oid in mod_oids:
             continue
-        cs.append(unchanged_obj(s0, s1, v, skip_attrs=mod_attrs))
+        cs.append(unchanged_obj(s0, s1, v, skip_attrs=mod_attrs, skip_oids=mod_oids))
     cs = [c for c in cs if not z3.is_true(c)]
     return z3.And(*cs) if cs else z3.BoolVal(True)
 
@@ -227,7 +234,10 @@ def verify_case(reg, con, case, hooks=None):
             nm = f"{eng.prefix}/{what}/post" + (f".{pi + 1}" if len(parts) > 1 else "")
             eng.obls.append(Obl(nm, s.pc, g, "post", {"exit": tag}))
         if not z3.is_true(fr):
-            eng.obls.append(Obl(f"{eng.prefix}/{what}/frame", s.pc, fr, "frame", {"exit": tag}))
+            fparts = flatten_and(fr)
+            for fi, g in enumerate(fparts):
+                nm = f"{eng.prefix}/{what}/frame" + (f".{fi + 1}" if len(fparts) > 1 else "")
+                eng.obls.append(Obl(nm, s.pc, g, "frame", {"exit": tag}))
     res.obls = eng.obls
     if res.paths == 0:
         res.error = "no feasible path"
